@@ -58,9 +58,22 @@ def extract_config(fn):
   cm = ConfigModel()
   var = [None]
 
+  locals_ = {}      # helper locals of get_config: name -> expression
+
+  class _Sub(ast.NodeTransformer):
+    def visit_Name(self, n):
+      if isinstance(n.ctx, ast.Load) and n.id in locals_:
+        import copy
+        return copy.deepcopy(locals_[n.id])
+      return n
+
+  def subst(e):
+    import copy
+    return _Sub().visit(copy.deepcopy(e)) if locals_ else e
+
   def add_items(items, guard):
     for k, v, node in items:
-      cm.keys.setdefault(k, []).append((v, guard, node))
+      cm.keys.setdefault(k, []).append((subst(v), guard, node))
 
   def do_block(stmts, guard):
     for st in stmts:
@@ -132,6 +145,27 @@ def extract_config(fn):
               st.value.func) or '').split('.')[0] in ('logging', 'warnings',
                                                       'print'):
         continue        # a message: does not touch the config
+      # helper locals: `x = <expr>` and lists filled by a loop.  What the
+      # config stores under a key is read through them.
+      if isinstance(st, ast.Assign) and len(st.targets) == 1 and isinstance(
+          st.targets[0], ast.Name) and st.targets[0].id != var[0] and \
+          var[0] not in names_read(st.value):
+        locals_[st.targets[0].id] = subst(st.value)
+        continue
+      if isinstance(st, ast.For) and var[0] not in names_read(st) and not \
+          st.orelse:
+        grown = False
+        for c in ast.walk(st):
+          if isinstance(c, ast.Call) and isinstance(c.func, ast.Attribute) \
+              and c.func.attr in ('append', 'extend') and isinstance(
+                  c.func.value, ast.Name) and c.func.value.id in locals_ \
+              and c.args:
+            x = c.func.value.id
+            locals_[x] = ast.Tuple(elts=[locals_[x], subst(c.args[0]),
+                                         subst(st.iter)], ctx=ast.Load())
+            grown = True
+        if grown:
+          continue
       raise AnalysisError('%s: unmodelled statement in get_config: %s' % (
           fn.loc(st), norm_text(st)[:100]))
 
